@@ -147,6 +147,29 @@ class Continue(Expression):
 T = TypeVar("T")
 
 
+# Words that are not read as a variable name when written bare.
+_RESERVED_WORDS = frozenset(
+    [
+        "true",
+        "false",
+        "nil",
+        "null",
+        "and",
+        "or",
+        "not",
+        "in",
+        "contains",
+        "if",
+        "else",
+        "with",
+        "required",
+        "as",
+        "for",
+        "empty",
+        "blank",
+    ]
+)
+
 _STRING_ESCAPES = {"\\": "\\\\", "\n": "\\n", "\r": "\\r", "\t": "\\t"}
 
 
@@ -570,7 +593,7 @@ class Path(Expression):
         it = iter(self.path)
         root = next(it)
         if isinstance(root, str):
-            if RE_PROPERTY.fullmatch(root):
+            if RE_PROPERTY.fullmatch(root) and root not in _RESERVED_WORDS:
                 buf = [root]
             else:
                 quote = _quote_char(root)
